@@ -10,4 +10,8 @@ def instances():
                             defs=["VX_SK=%s" % K[s], "VX_DK=%s" % K[d]], stubs=FMT_STUBS + CTX_STUBS + CONTAINER_STUBS, unwind=3, unwindset=EMPTY_DECL_UNWIND,
                             timeout=300, tier="quick" if quick else "thorough",
                             bounds="scalar kinds fixed per instance; strings <= 1 byte", inputs="null flags, payloads, source is a variable or a temporary, safety and lock flags of the destination"))
+    for k in "is":
+        out.append(Inst(id="let.iterator.%s" % k, props=["C05", "C17", "C09", "C06", "C01"], harness="h_store.cpp", entry="c05_let_through_iterator", tus=CORE_TUS + ["blocc/statement_let.cpp", "blocc/expression_variable.cpp"],
+                        defs=["VX_SK=%s" % K[k], "VX_DK=%s" % K[k]], stubs=FMT_STUBS + CTX_STUBS + CONTAINER_STUBS, unwind=3, unwindset=EMPTY_DECL_UNWIND, timeout=300,
+                        quick_also=["C17", "C09", "C06"], bounds="element / source of one scalar kind; strings <= 1 byte", inputs="values, null flags, lvalue flag of the source, lock flag"))
     return out
